@@ -32,7 +32,7 @@ theorem sgr_step2 {t : Term.T} {e : Emu} {rows cols : Nat} (s2 : Sim2 t e rows c
     emuStep_csi_ok (by rw [csi_109]; exact hs)
   refine ⟨_, hstep, ?_⟩
   refine refines2_of s2 (.sgr ps) (by intro h; cases h) (by intro h; cases h) (by intro h; cases h)
-    (by intro h; cases h) ?_ ⟨rfl, rfl, rfl, rfl, fun _ => rfl⟩ ?_
+    (by intro h; cases h) (by intro h; cases h) ?_ ⟨rfl, rfl, rfl, rfl, fun _ => rfl⟩ ?_
   · show Refines (Term.one { t with pen := Spec.sgr t.pen ps }) _ rows cols
     refine refines_one (sim_setPen s2.sim _ st' ?_ hk.link)
     rw [habs, s2.sim.pen]
